@@ -405,9 +405,12 @@ func (c12) runFile(ts *tape.Set, tier Tier) *Result {
 		kind := []store.FaultKind{store.EIOOpen, store.EIOMid, store.NotFound}[i%3]
 		plans = append(plans, faultPlan{kind: kind, targets: []cid.Cid{b}, kth: -1, after: i * 13, flavour: 1 + i%3})
 	}
-	for k := 1; k < nLoads; k++ { // load 0 is the root
+	for k := 1; k < nLoads; k += kthStride(nLoads) { // load 0 is the root
 		kind := faultKinds[k%len(faultKinds)]
 		plans = append(plans, faultPlan{kind: kind, kth: k, after: k * 7})
+	}
+	if nLoads > 1 {
+		plans = append(plans, faultPlan{kind: faultKinds[nLoads%4], kth: nLoads - 1, after: 5})
 	}
 	sr := tape.NewSplitMix(subsetSeed)
 	for i := 0; i < 6 && len(blocks) >= 2; i++ {
@@ -516,6 +519,23 @@ func (c12) runFile(ts *tape.Set, tier Tier) *Result {
 	}
 	res.Sig = sig
 	return res
+}
+
+// kthStride spaces the "k-th load fails" plans so that one run stays within
+// about three million block loads: every k for DAGs up to ~1700 loads.
+func kthStride(nLoads int) int {
+	if nLoads <= 0 {
+		return 1
+	}
+	maxPlans := 3000000 / nLoads
+	if maxPlans < 20 {
+		maxPlans = 20
+	}
+	s := (nLoads + maxPlans - 1) / maxPlans
+	if s < 1 {
+		s = 1
+	}
+	return s
 }
 
 func keysOf(m map[int64]bool) []int64 {
